@@ -67,6 +67,68 @@ let tree (fs : (BinNums.coq_Z list list * kind) list) : string =
 
 let show_path p = match sz p with "" -> "~" | s -> s
 
+(* ---- the file system with symbolic links (FsLinkSpec / FsLinkModel) ---- *)
+open FsLinkSpec
+let max_links = nat_of_int 40                       (* Linux MAXSYMLINKS *)
+let perms (_ : BinNums.coq_Z list list) = z_of_int 0o755   (* any function: the theorems hold for every one *)
+
+let unescape_pct (s : string) : string =
+  let b = Buffer.create (String.length s) in
+  let hex c = match c with '0'..'9' -> Char.code c - 48 | 'a'..'f' -> Char.code c - 87 | 'A'..'F' -> Char.code c - 55 | _ -> -1 in
+  let n = String.length s in
+  let i = ref 0 in
+  while !i < n do
+    if s.[!i] = '%' && !i + 2 < n + 0 && hex s.[!i + 1] >= 0 && hex s.[!i + 2] >= 0 then begin
+      Buffer.add_char b (Char.chr (hex s.[!i + 1] * 16 + hex s.[!i + 2])); i := !i + 3
+    end else begin Buffer.add_char b s.[!i]; incr i end
+  done;
+  Buffer.contents b
+
+let escape_pct (s : string) : string =
+  String.concat "" (List.map (fun c ->
+      let k = Char.code c in
+      if k <= 32 || k >= 127 || c = '%' || c = ',' || c = ':' || c = '|' then Printf.sprintf "%%%02X" k
+      else String.make 1 c) (List.init (String.length s) (String.get s)))
+
+let abs_case_dir = "/tmp/S/w"
+let link_setup (setup : string) : (BinNums.coq_Z list list * node) list =
+  let entries = if setup = "-" then [] else String.split_on_char ',' setup in
+  let base_dirs = [(List.filteri (fun i _ -> i < 1) base_loc, NDir); (base_loc, NDir); (cwd, NDir)] in
+  base_dirs @ List.filter_map (fun e ->
+      let body = String.sub e 2 (String.length e - 2) in
+      match e.[0] with
+      | 'd' -> Some (loc_of_rel body, NDir)
+      | 'f' -> Some (loc_of_rel body, NFile [])
+      | 'p' -> Some (loc_of_rel body, NFifo)
+      | 'l' -> (match String.index_opt body '=' with
+          | Some i ->
+            let rel = String.sub body 0 i and t = String.sub body (i + 1) (String.length body - i - 1) in
+            let t = if String.length t > 0 && t.[0] = '@' then abs_case_dir ^ String.sub t 1 (String.length t - 1) else t in
+            Some (loc_of_rel rel, NLink (zs t))
+          | None -> None)
+      | _ -> None) entries
+
+let case_path (path : string) =
+  if path = "~" then [] else if path.[0] = '@' then zs (abs_case_dir ^ String.sub path 1 (String.length path - 1))
+  else zs path
+
+let ltree (fs : (BinNums.coq_Z list list * node) list) : string =
+  let items = List.filter_map (fun (l, k) ->
+      match l with
+      | a :: b :: rest when sz a = "tmp" && sz b = "S" && rest <> [] ->
+        Some (String.concat "/" (List.map sz rest) ^
+              (match k with NDir -> "/" | NLink t -> "->" ^ sz t | NFifo -> "|" | _ -> ""))
+      | _ -> None) fs in
+  match List.sort compare items with [] -> "-" | l -> String.concat "," l
+
+let show_trace tr = match tr with [] -> "-" | _ -> String.concat " " (List.map (function
+    | FsModel.EvStat (q, t) -> Printf.sprintf "stat:%s:%s" (show_path q) (type_name t)
+    | FsModel.EvMkdir (q, rc) -> Printf.sprintf "mkdir:%s:%d" (show_path q) (int_of_z rc)) tr)
+
+let show_res = function
+  | RErr e -> Printf.sprintf "E%d" (int_of_z e)
+  | RAt (_, n, _) -> Printf.sprintf "%o" (int_of_z (fmt_of_node n))
+
 let fmt_of_kind = function
   | "R" -> (Some 0o100000, Some 0o100000) | "D" -> (Some 0o040000, Some 0o040000)
   | "LR" -> (Some 0o100000, Some 0o120000) | "LD" -> (Some 0o040000, Some 0o120000)
@@ -78,41 +140,54 @@ let () =
   iter_lines (fun line ->
     match split_ws line with
     | ["D"; al; setup; path] ->
-      (* symbolic links are not in the proved abstract file system: for the observable part of such cases a link
-         to an existing directory counts as a directory, any other link (to a file, dangling) as a file *)
+      (* everything from the model over the file system with symbolic links; for a setup without links and fifos the
+         model over the link-free file system (Properties_C15.v) is run too and must give the same line *)
       let entries = if setup = "-" then [] else String.split_on_char ',' setup in
-      let has_links = List.exists (fun e -> e.[0] = 'l') entries in
-      let plain = List.filter_map (fun e -> if e.[0] = 'l' then None else
-          Some (loc_of_rel (String.sub e 2 (String.length e - 2)), if e.[0] = 'd' then KDir else KFile)) entries in
-      let links = List.fold_left (fun acc e -> if e.[0] <> 'l' then acc else
-          match String.split_on_char '=' (String.sub e 2 (String.length e - 2)) with
-          | [rel; target] ->
-            let l = loc_of_rel rel in
-            let parent = List.filteri (fun i _ -> i < List.length l - 1) l in
-            let tl = parent @ [zs target] in
-            let k = (match List.assoc_opt tl (plain @ acc) with Some KDir -> KDir | _ -> KFile) in
-            acc @ [(l, k)]
-          | _ -> acc) [] entries in
-      let fs0 = [(List.filteri (fun i _ -> i < 1) base_loc, KDir); (base_loc, KDir); (cwd, KDir)] @ plain @ links in
-      let p = if path = "~" then [] else if path.[0] = '@' then zs ("/tmp/S/w" ^ String.sub path 1 (String.length path - 1))
-        else zs path in
+      let plain_only = List.for_all (fun e -> e.[0] = 'd' || e.[0] = 'f') entries in
+      let fs0 = link_setup setup in
+      let p = case_path path in
       let alloc_ok = (al = "1") in
-      let ((st, fs1), tr) = FsModel.create_directories alloc_ok fs0 cwd p in
-      let isdir = names_directoryb fs1 cwd p in
-      let ((again, fs2), _) = FsModel.create_directories true fs1 cwd p in
-      let trace = match tr with [] -> "-" | _ -> String.concat " " (List.map (function
-          | FsModel.EvStat (q, t) -> Printf.sprintf "stat:%s:%s" (show_path q) (type_name t)
-          | FsModel.EvMkdir (q, rc) -> Printf.sprintf "mkdir:%s:%d" (show_path q) (int_of_z rc)) tr) in
-      Printf.printf "M st= %s isdir= %d again= %s same= %d fds= 0 leak= 0 || %s tree=%s\n" (status_name st)
-        (if isdir then 1 else 0) (status_name again) (if tree fs1 = tree fs2 then 1 else 0)
-        (if has_links then "symlinks" else trace) (if has_links then "-" else tree fs1);
+      let ((st, fs1), tr) = FsLinkModel.create_directories_l perms max_links alloc_ok fs0 cwd p in
+      let isdir = names_directory_lb max_links fs1 cwd p in
+      let ((again, fs2), tr2) = FsLinkModel.create_directories_l perms max_links true fs1 cwd p in
+      let fds = int_of_z (FsLinkModel.fd_balance (List.map FsLinkModel.sys_of_fsev (tr @ tr2))) in
+      let line = Printf.sprintf "st= %s isdir= %d again= %s same= %d fds= %d leak= 0 || %s tree=%s" (status_name st)
+          (if isdir then 1 else 0) (status_name again) (if ltree fs1 = ltree fs2 then 1 else 0) fds
+          (show_trace tr) (ltree fs1) in
+      let agree =
+        if not plain_only then true else begin
+          let plain = List.map (fun e ->
+              (loc_of_rel (String.sub e 2 (String.length e - 2)), if e.[0] = 'd' then KDir else KFile)) entries in
+          let ofs0 = [(List.filteri (fun i _ -> i < 1) base_loc, KDir); (base_loc, KDir); (cwd, KDir)] @ plain in
+          let ((ost, ofs1), otr) = FsModel.create_directories alloc_ok ofs0 cwd p in
+          let oisdir = names_directoryb ofs1 cwd p in
+          let ((oagain, ofs2), _) = FsModel.create_directories true ofs1 cwd p in
+          let oline = Printf.sprintf "st= %s isdir= %d again= %s same= %d fds= 0 leak= 0 || %s tree=%s" (status_name ost)
+              (if oisdir then 1 else 0) (status_name oagain) (if tree ofs1 = tree ofs2 then 1 else 0)
+              (show_trace otr) (tree ofs1) in
+          oline = line
+        end in
+      Printf.printf "M %s%s\n" line (if agree then "" else " MODELS-DISAGREE");
       (* spec: mkdir -p over the components *)
-      let (r, _) = mkdirs_spec fs0 cwd p in
+      let (r, _) = lmkdirs_spec max_links fs0 cwd p in
       let (s_st, s_dir) =
-        if not alloc_ok || has_links then ("*", "*")
+        if not alloc_ok then ("*", "*")
         else if p = [] then ("*", "0")
-        else match r with MkOk _ -> ("SUCCESS", "1") | MkBlocked -> ("*", "0") in
+        else match r with LOk (_, _) -> ("SUCCESS", "1") | LBlocked -> ("*", "0") in
       Printf.printf "S st= %s isdir= %s again= * same= * fds= 0 leak= 0\n" s_st s_dir
+    | ["Q"; setup; path] ->
+      let fs0 = link_setup setup in
+      let p = case_path path in
+      let st = stat_l max_links fs0 cwd p and lst = lstat_l max_links fs0 cwd p in
+      let size = match st with
+        | RErr _ | RAt (_, NFile _, _) -> string_of_z (FsLinkModel.file_size_l (fun _ -> z_of_int (-2)) max_links fs0 cwd p)
+        | _ -> "eqstat" in
+      Printf.printf "M type= %s ltype= %s size= %s fds= 0 leak= 0 || stat=%s lstat=%s\n"
+        (type_name (FsLinkModel.file_type_l perms max_links fs0 cwd p))
+        (type_name (FsLinkModel.symlink_type_l perms max_links fs0 cwd p)) size (show_res st) (show_res lst);
+      Printf.printf "S type= %s ltype= %s size= %s fds= 0 leak= 0\n" (type_name (kind_of_res st))
+        (type_name (kind_of_res lst))
+        (match st with RErr _ -> "-1" | RAt (_, NFile b, _) -> string_of_int (List.length b) | _ -> "eqstat")
     | ["E"; a; b; rel; al1; al2; e0; script] ->
       let fa = if a = "M" then None else Some (z_of_int 1, zl (parse_bytes a)) in
       let fb = match rel with
@@ -133,26 +208,91 @@ let () =
           | _, _ -> "false" in
       Printf.printf "S eq= %s fds= 0 leak= 0\n" s_eq
     | ["T"; k; size] ->
-      let (st, lst) = fmt_of_kind k in
-      let ty m = type_name (FsModel.file_type_of (Option.map z_of_int m)) in
-      let sty m = match m with None -> "NONE" | Some v -> type_name (type_of_mode_spec (z_of_int v)) in
+      (* the abstract file system of the case: x is the node (or a link to t), /dev/null for C *)
+      let n = int_of_string size in
+      let here rel = cwd @ [zs rel] in
+      let base_dirs = [(List.filteri (fun i _ -> i < 1) base_loc, NDir); (base_loc, NDir); (cwd, NDir)] in
+      let content = List.init n (fun _ -> z_of_int 0) in
+      let (fs0, p) = match k with
+        | "R" -> (base_dirs @ [(here "x", NFile content)], "x")
+        | "D" -> (base_dirs @ [(here "x", NDir)], "x")
+        | "LR" -> (base_dirs @ [(here "t", NFile content); (here "x", NLink (zs "t"))], "x")
+        | "LD" -> (base_dirs @ [(here "t", NDir); (here "x", NLink (zs "t"))], "x")
+        | "LX" -> (base_dirs @ [(here "x", NLink (zs "t"))], "x")
+        | "F" -> (base_dirs @ [(here "x", NFifo)], "x")
+        | "S" -> (base_dirs @ [(here "x", NSock)], "x")
+        | "C" -> (base_dirs @ [([zs "dev"], NDir); ([zs "dev"; zs "null"], NChr)], "/dev/null")
+        | _ -> (base_dirs, "x") in
+      let p = zs p in
+      let st = stat_l max_links fs0 cwd p and lst = lstat_l max_links fs0 cwd p in
+      let o r = match r with RErr _ -> 0 | RAt (_, nd, _) -> int_of_z (fmt_of_node nd) in
       let sizes = match st with
-        | None -> string_of_z (FsModel.file_size_of None)
-        | Some 0o100000 -> string_of_z (FsModel.file_size_of (Some (z_of_int (int_of_string size))))
-        | Some _ -> "eqstat" in
-      let canon = if st = None then "null" else "same" in
-      let o m = match m with None -> 0 | Some v -> v in
-      Printf.printf "M type= %s ltype= %s size= %s canon= %s fds= 0 leak= 0 || stat=%o lstat=%o\n"
-        (ty st) (ty lst) sizes canon (o st) (o lst);
-      Printf.printf "S type= %s ltype= %s size= %s canon= %s fds= 0 leak= 0\n" (sty st) (sty lst)
-        (match st with None -> "-1" | Some 0o100000 -> size | Some _ -> "eqstat") canon
-    | ["R"; names] ->
-      let l = if names = "-" then [] else
-          List.map (fun s -> if String.length s > 0 && s.[String.length s - 1] = '/'
-                     then String.sub s 0 (String.length s - 1) else s) (String.split_on_char ',' names) in
-      let l = List.sort_uniq compare l in
-      let n = List.length l in
-      Printf.printf "M visited= %d entries= %d missing= 0 dup= 0 dots= 0 fds= 0 ||%s\n" n n
-        (if l = [] then " -" else String.concat "" (List.map (fun s -> " " ^ s) l));
+        | RErr _ | RAt (_, NFile _, _) -> string_of_z (FsLinkModel.file_size_l (fun _ -> z_of_int (-2)) max_links fs0 cwd p)
+        | _ -> "eqstat" in
+      let canon = match st with RErr _ -> "null" | _ -> "same" in
+      Printf.printf "M type= %s ltype= %s size= %s canon= %s fds= %d leak= 0 || stat=%o lstat=%o\n"
+        (type_name (FsLinkModel.file_type_l perms max_links fs0 cwd p))
+        (type_name (FsLinkModel.symlink_type_l perms max_links fs0 cwd p)) sizes canon
+        (int_of_z (FsLinkModel.fd_balance (FsLinkModel.file_type_calls @ FsLinkModel.symlink_type_calls @ FsLinkModel.file_size_calls)))
+        (o st) (o lst);
+      (* spec: the S_IFMT table on what stat / lstat report (hand-written table of the kinds) *)
+      let (sst, slst) = fmt_of_kind k in
+      let sty m = match m with None -> "NONE" | Some v -> type_name (type_of_mode_spec (z_of_int v)) in
+      Printf.printf "S type= %s ltype= %s size= %s canon= %s fds= 0 leak= 0\n" (sty sst) (sty slst)
+        (match sst with None -> "-1" | Some 0o100000 -> size | Some _ -> "eqstat") canon
+    | [("R" | "RL") as kind; names] ->
+      (* a real directory: the abstract file system has d/ with these names (and ld -> d); the kernel's order is not
+         known to the model, both sides print the visited names sorted *)
+      let raw = if names = "-" then [] else List.map unescape_pct (String.split_on_char ',' names) in
+      let ents = List.map (fun s -> if String.length s > 0 && s.[String.length s - 1] = '/'
+                            then (String.sub s 0 (String.length s - 1), NDir) else (s, NFile [])) raw in
+      let base_dirs = [(List.filteri (fun i _ -> i < 1) base_loc, NDir); (base_loc, NDir); (cwd, NDir)] in
+      let d = cwd @ [zs "d"] in
+      let fs0 = base_dirs @ [(d, NDir)] @ (if kind = "RL" then [(cwd @ [zs "ld"], NLink (zs "d"))] else [])
+                @ List.map (fun (nm, nd) -> (d @ [zs nm], nd)) ents in
+      let order l = List.rev l in                    (* some order; "." and ".." end up last *)
+      let path = zs (if kind = "RL" then "ld" else "d") in
+      let dir = FsLinkModel.opendir_l order max_links fs0 cwd path in
+      let st1 = FsLinkModel.dir_for_each path (z_of_int 0) dir FsLinkModel.d_init in
+      let st2 = FsLinkModel.dir_for_each (zs "missing") (z_of_int 0)
+          (FsLinkModel.opendir_l order max_links fs0 cwd (zs "missing")) st1 in
+      let visited = List.sort compare (List.map (fun ((_, nm), _) -> sz nm) (FsLinkModel.d_log st2)) in
+      let entries = List.sort_uniq compare (List.map sz (children fs0 d)) in
+      let missing = List.length (List.filter (fun e -> not (List.mem e visited)) entries) in
+      let rec dups = function a :: (b :: _ as t) -> (if a = b then 1 else 0) + dups t | _ -> 0 in
+      let dots = List.length (List.filter (fun e -> e = "." || e = "..") visited) in
+      Printf.printf "M visited= %d entries= %d missing= %d dup= %d dots= %d fds= %d ||%s\n" (List.length visited)
+        (List.length entries) missing (dups visited) dots (int_of_nat (FsLinkModel.d_open st2))
+        (if visited = [] then " -" else String.concat "" (List.map (fun s -> " " ^ escape_pct s) visited));
+      let n = List.length (List.sort_uniq compare (List.map fst ents)) in
       Printf.printf "S visited= %d entries= %d missing= 0 dup= 0 dots= 0 fds= 0\n" n n
+    | ["V"; how; names] ->
+      (* scripted readdir: the same entry list, in the same order, goes to the model *)
+      let ents = if names = "-" then [] else List.map unescape_pct (String.split_on_char ',' names) in
+      let dir = if how = "fail" then None else Some (List.map zs ents) in
+      let st = FsLinkModel.dir_for_each (zs "d") (z_of_int 7) dir FsLinkModel.d_init in
+      let log = FsLinkModel.d_log st in
+      let visited = List.map (fun ((_, nm), _) -> sz nm) log in
+      let dots = List.length (List.filter (fun e -> e = "." || e = "..") visited) in
+      let calls = List.map (function
+          | FsLinkModel.DOpendir (q, true) -> ("opendir:" ^ escape_pct (sz q), None)
+          | FsLinkModel.DOpendir (q, false) -> ("opendir-fail:" ^ escape_pct (sz q), None)
+          | FsLinkModel.DReaddir (Some e) -> ("readdir:" ^ escape_pct (sz e), Some e)
+          | FsLinkModel.DReaddir None -> ("readdir-null", None)
+          | FsLinkModel.DClosedir -> ("closedir", None)) (FsLinkModel.d_calls st) in
+      (* interleave: the callback for an entry follows its readdir; the model keeps calls and callbacks in two
+         lists, in order, so the k-th callback goes after the readdir of the k-th visited entry *)
+      let rec weave calls log = match calls with
+        | [] -> []
+        | (c, Some e) :: rest ->
+          (match log with
+           | ((q, nm), dt) :: lrest when nm = e && not (sz e = "." || sz e = "..") ->
+             c :: Printf.sprintf "cb:%s:%s:%d" (escape_pct (sz q)) (escape_pct (sz nm)) (int_of_z dt) :: weave rest lrest
+           | _ -> c :: weave rest log)
+        | (c, None) :: rest -> c :: weave rest log in
+      let names_tok l = if l = [] then "-" else String.concat "," (List.map escape_pct l) in
+      Printf.printf "M visited= %d dots= %d fds= %d names= %s || %s\n" (List.length visited) dots
+        (int_of_nat (FsLinkModel.d_open st)) (names_tok visited) (String.concat " " (weave calls log));
+      let want = if how = "fail" then [] else List.filter (fun e -> e <> "." && e <> "..") ents in
+      Printf.printf "S visited= %d dots= 0 fds= 0 names= %s\n" (List.length want) (names_tok want)
     | _ -> Printf.printf "M ?\nS ?\n")
